@@ -610,3 +610,14 @@ _C13_ADD = [H("agentshim", "message::verif_message::c13_add_order_" + n, tier=t,
               funcs=["StunAttributes::add", "From<StunAttributes> for Vec<StunAttribute>"])
             for (n, t) in (("aba", "quick"), ("aab", "quick"), ("abb", "thorough"), ("abc", "thorough"), ("aaa", "thorough"))]
 PROPS["C13"] = PROPS["C13"] + _C13_ADD
+
+# symbolic slot types (FINGERPRINT / PRIORITY / unknown per slot): tractable since the message type is concrete
+for _h in _C18[1:]:
+    _h.tier = "thorough"
+    if _h.name.endswith(("c18_decode_not_ignore", "c18_decode_not_ignore_mi", "c18_decode_unknown_block_data")):
+        _h.covers = 1   # with not_ignore / an unknown first block the second slot is always admitted
+    _h.bounds = _h.bounds.replace("/ method / class / transaction id symbolic", "/ transaction id symbolic, message type concrete")
+PROPS["C18"] = PROPS["C18"] + _C18[1:]
+
+# encoder-side MAC / CRC input (message-level encode with recording HMAC stubs, c04_tail_*): re-measured with a concrete
+# message type: still 17 GB / > 20 min for the MI-only tail; not registered.
